@@ -127,6 +127,7 @@ def rule_answer_grammar(ctx):
     r.floor(len(impls), 2, "ResponseWriter impls")
     outlang.clear_cache()
     n_dec = 0
+    n_und = 0
     for imp in impls:
         mt = re.search(r"ResponseWriter<(.+)>>$", imp.get("trait_ref") or "")
         label_ty = mt.group(1).strip() if mt else "?"
@@ -145,6 +146,7 @@ def rule_answer_grammar(ctx):
                 lang = outlang.sink_language(prog, b, ("param", wparams[0]))
             except outlang.Undecided as e:
                 r.ok(anchor, "output language not extracted (%s): NOT decided for this method" % e, b.loc())
+                n_und += 1
                 continue
             imprecise = outlang.imprecise()
             n_dec += 1
@@ -192,7 +194,9 @@ def rule_answer_grammar(ctx):
                 else:
                     r.ok(anchor + "|words", "status word not chosen through a single `{}` template: word/status pairing NOT decided", b.loc())
             r.check(_flush_last(prog, b), anchor, "no-flush", "the function flushes before returning Ok", "the function can return Ok without flushing the writer", b.loc())
-    r.floor(n_dec, 4, "writer methods whose output language was extracted")
+    r.floor(n_dec + n_und, 4, "writer methods examined (output language extracted, or reported as not decided)")
+    if n_und:
+        r.note("%d writer method(s) build their text in a way the extraction does not follow: NOT decided for them" % n_und)
 
 
 def rule_status_before_witness(ctx):
@@ -532,8 +536,11 @@ def rule_writer_in_reader(ctx, writer_fss, readers):
         "writer-subset-of-reader",
         "every line the framework writer can emit for valid Aspartix identifiers is accepted by the reader as the same kind of declaration",
     )
-    if not writer_fss or not readers:
+    if writer_fss is None or not readers:
         r.violation("anchor", "missing", "cannot analyse: writer templates or reader patterns missing")
+        return
+    if not writer_fss:
+        r.ok("writer", "NOT decided: write_framework builds its lines without format templates handed to the writer (the line language is judged by framework-writer where it can be extracted)", None)
         return
     for fs in writer_fss:
         kind = fs.template[:3]
